@@ -272,17 +272,17 @@ def run(prog: Program, ctx: Ctx) -> None:  # noqa: PLR0912,PLR0915
     ctx.rule("R6", "_get_parts rejects empty keys; single-part keys act on parts[0]; multi-part keys recurse on parts[1:] through the "
                    "same-named operation of the child members[parts[0]]")
     gp = prog.function("_griffe.mixins._get_parts")
-    raises = [r for r in walk_no_nested(gp.node) if isinstance(r, ast.Raise)]
-    cfgp = cfg_of(gp)
-    empty_guard = 0
-    for x in cfgp.live_nodes():
-        if x.kind == "test" and x.expr is not None and isinstance(x.expr, ast.UnaryOp) and isinstance(x.expr.op, ast.Not) and isinstance(x.expr.operand, ast.Name):
-            tb = [b for b, lab in cfgp.succ[x] if lab == "T"]
-            if tb and isinstance(tb[0].stmt, ast.Raise):
-                empty_guard += 1
-    ctx.ob("R6", key(gp, "rejects-empty"), empty_guard >= 2 and len(raises) >= 2,
-           "empty string and empty sequence keys raise before any lookup", where(gp))
-    ops = {"get_member": "call", "set_member": "call", "del_member": "call", "__getitem__": "sub", "__setitem__": "sub", "__delitem__": "sub"}
+    from sa.absint import Interp as _Interp
+    from sa.absint import Raised as _Raised
+
+    itp = _Interp(prog)
+    for keyv, want in (("a", ("a",)), ("a.b.c", ("a", "b", "c")), (("a", "b"), ("a", "b")), (["a"], ("a",)), ("", "raises ValueError"), ((), "raises ValueError"), ([], "raises ValueError")):
+        try:
+            got = tuple(itp.call(gp, keyv))
+        except _Raised as r:
+            got = f"raises {r.exc}"
+        ctx.ob("R6", f"_get_parts|{keyv!r}", got == want, f"_get_parts({keyv!r}) = {got!r}, expected {want!r}", where(gp))
+    ops = ("get_member", "set_member", "del_member", "__getitem__", "__setitem__", "__delitem__")
     n_ops = 0
     for cname in ("_griffe.mixins.GetMembersMixin", SET_OWNER, DEL_OWNER):
         cls = prog.cls(cname)
@@ -292,18 +292,7 @@ def run(prog: Program, ctx: Ctx) -> None:  # noqa: PLR0912,PLR0915
             f = defs[0]
             n_ops += 1
             src_calls = [c for c in calls_in(f.node) if (dotted(c.func) or "") == "_get_parts"]
-            ctx.ob("R6", key(f, "uses-_get_parts"), len(src_calls) == 1, "key is normalised through _get_parts", where(f))
-            rec = False
-            for n in walk_no_nested(f.node):
-                if isinstance(n, ast.Slice) and isinstance(n.lower, ast.Constant) and n.lower.value == 1 and n.upper is None:
-                    sub = parent(n)
-                    outer = parent(sub) if sub is not None else None
-                    if ops[mname] == "call":
-                        rec = rec or (isinstance(outer, ast.Call) and isinstance(outer.func, ast.Attribute) and outer.func.attr == mname
-                                      and "[parts[0]]" in unparse(outer.func.value).replace(" ", ""))
-                    else:
-                        rec = rec or (isinstance(outer, ast.Subscript) and "[parts[0]]" in unparse(outer.value).replace(" ", ""))
-            ctx.ob("R6", key(f, "recurse-on-tail"), rec, f"{mname} recurses on parts[1:] through the same operation of members[parts[0]]", where(f))
+            ctx.ob("R6", key(f, "uses-_get_parts"), len(src_calls) == 1, "key is normalised through _get_parts (multi-part keys are decided on behaviour by the history table R7)", where(f))
     ctx.expect_min("R6", n_ops, 6)
     _history_table(prog, ctx)
 
@@ -425,9 +414,9 @@ def _history_table(prog: Program, ctx: Ctx) -> None:  # noqa: PLR0912,PLR0915
                 problems.append(f"parent of {'.'.join(cpath)} is not its container")
             if child.attrs.get("name") != name:
                 problems.append(f"{'.'.join(cpath)} is stored under a key different from its name")
-            for form, keyv in (("dotted", ".".join(cpath)), ("tuple", tuple(cpath))):
+            for form, keyv in (("dotted", ".".join(cpath)), ("tuple", tuple(cpath)), ("item syntax", ".".join(cpath)), ("item syntax with a tuple", tuple(cpath))):
                 try:
-                    got = it.call(meth(coll, "get_member"), coll, keyv)
+                    got = it.call(meth(coll, "__getitem__" if form.startswith("item") else "get_member"), coll, keyv)
                 except Raised as r:
                     got = f"raises {r.exc}"
                 if got is not child:
